@@ -84,8 +84,8 @@ Print Assumptions text_print_norm.
    FLT/DBL/LDBL_MANT_DIG digits: lexeme of the printf shape and strtoX (printf x) = x), names resolving
    as meant, labels numbered in order of first occurrence (what MIR_scan_string itself produces), UINT
    immediates < 2^63 and STR operands NUL-terminated (the complement of the recorded known findings).
-   Not covered by this theorem (correspondence only): p-typed data (hexadecimal literals), modules
-   whose labels are numbered otherwise (the model predicts the renumbered text). *)
+   p-typed data (0x literals, HexProofs.v) is covered.  Not covered by this theorem (correspondence
+   only): modules whose labels are numbered otherwise (the model predicts the renumbered text). *)
 Theorem text_module_fixpoint : forall pF pD pLD fF fD fLD ms, wf_text pF pD pLD fF fD fLD ms ->
   scan_ctx pF pD pLD (p_ctx fF fD fLD ms) = Ok (map tnorm_module ms)
   /\ p_ctx fF fD fLD (map tnorm_module ms) = p_ctx fF fD fLD ms.
